@@ -16,13 +16,16 @@ the step cap raises HarnessLimit (not a violation).
 
 Finding keys: C05/exactly-once/fired-twice; C05/early-complete/<not-dispatched | handlers-remaining | generator-handler-running>
 (an undrained closure member reached through plain-handler fires only) or C05/early-complete/fired-from-generator-step (all
-undrained members sit below a fire made from a generator step); C05/never-completes/<cancelled-descendant |
-raising-generator-handler | handlerless-descendant | liveness> (shape = which hazardous kind is present in the drained
-closure; when several are present the run is repeated on a shadow context with all kinds but one left out, and the kind that
-alone still prevents completion names the finding; 'a+b' only if no single kind does).  ctx.avoid: a listed cancelled-descendant key stops cancellation inside tracked closures,
+undrained members sit below a fire made from a generator step); C05/never-completes/<kind> with kind one of
+cancelled-descendant, raising-generator-handler, handlerless-descendant, stopped-event, raising-plain-handler, nested-requester
+(what the drained closure contains; when several kinds are present run_one repeats the run on shadow contexts with kinds left
+out of the program and keeps only what is needed for the failure - 'a+b' if two kinds are both needed, .../liveness if the
+program still never completes with all kinds left out).
+ctx.avoid: a listed cancelled-descendant key stops cancellation inside tracked closures,
 a listed raising-generator-handler key stops generator handlers of tracked events from raising, a listed
 fired-from-generator-step key stops generator handlers of tracked events from firing, a listed handlerless-descendant key
-gives every descendant of a tracked event at least one handler.
+gives every descendant of a tracked event at least one handler; stopped-event / raising-plain-handler / nested-requester keys
+likewise keep stop(), plain raises and nested requesters out of tracked closures.
 """
 from simcore import world
 from simcore.choices import Choices
@@ -112,31 +115,32 @@ def run_one(ctx):
     _run(ctx, frozenset())
     # A drained closure that never completes is first keyed by the kinds (KINDS) present in it.  To keep one key per root cause the
     # run is then repeated on shadow contexts (same tape, nothing of it is logged) with kinds left out of the program: if it still
-    # never completes with all of them left out, none is to blame (.../liveness); otherwise the first kind that alone (all others
-    # left out) still prevents completion names the finding; 'a+b' stays only if no single kind does.
+    # never completes with all kinds left out, none is to blame (.../liveness); otherwise kinds are left out one after the other as
+    # long as the program still never completes, and what cannot be left out names the finding (usually one kind).
     nc = 'C05/never-completes/'
     if ctx.violations and ctx.violations[0][0].startswith(nc) and not ctx.violations[0][0].endswith('/liveness'):
         key, detail = ctx.violations[0]
         kinds = key[len(nc):].split('+')
 
-        def rerun(mute):
+        def still_fails(mute):
             sub = RunCtx(ctx.prop, Choices(tape=list(ctx.ch.tape)), ctx.cfg, ctx.tier)
             sub.avoid = ctx.avoid
             try:
                 _run(sub, frozenset(mute))
             except Exception:
-                return None
-            return sub.violations[0][0] if sub.violations else ''
+                return False
+            return bool(sub.violations) and sub.violations[0][0].startswith(nc)
 
-        if (rerun(KINDS) or '').startswith(nc):
-            ctx.violations[0] = (nc + 'liveness', detail + ' [kinds present: %s; none is to blame: the program with all of them left out '
-                                 'still never completes]' % ', '.join(kinds))
+        if still_fails(KINDS):
+            need = ['liveness']
         else:
+            need, out = list(kinds), set(KINDS) - set(kinds)
             for f in kinds:
-                if rerun(set(KINDS) - {f}) == nc + f:
-                    ctx.violations[0] = (nc + f, detail + ' [kinds present: %s; attributed to %s: the program with all other kinds left '
-                                         'out still never completes, with all kinds left out it completes]' % (', '.join(kinds), f))
-                    break
+                if still_fails(out | {f}):
+                    need.remove(f)
+                    out.add(f)
+        ctx.violations[0] = (nc + '+'.join(need), detail + ' [kinds present: %s; needed for the failure when the others are left out of the '
+                             'program: %s]' % (', '.join(kinds), ', '.join(need)))
 
 
 def _run(ctx, mute):
@@ -244,10 +248,13 @@ def _run(ctx, mute):
                               'prepare_unregister' if is_unreg else None))
     BOUND = 4 * st['gen_steps'] + maxdepth + 10
 
-    def strip(n):
+    def strip(n, above=False):
         """attribution re-run (see run_one): leave the muted kinds out of the program"""
-        if F_NESTED in mute and n.depth:
+        if F_NESTED in mute and above:          # a requester inside the closure of another one
             n.complete = n.cc = False
+        if F_NOH in mute:                       # every event gets one (do-nothing) handler more
+            n.nslots += 1
+            n.specs[filler['idx']] = [[]]
         for sl in slots:
             for i, acts in enumerate(n.specs.get(sl['idx'], ())):
                 out = []
@@ -255,17 +262,21 @@ def _run(ctx, mute):
                     if a[0] == 'stop' and F_STOP in mute or a[0] == 'raise' and (F_GENRAISE if sl['gen'] else F_RAISE) in mute:
                         continue
                     if a[0] == 'fire':
-                        if F_NOH in mute and not a[1].nslots or F_CANCEL in mute and a[1].cancel == 1:
+                        if F_CANCEL in mute and a[1].cancel == 1:
                             continue
                         if F_CANCEL in mute:
                             a[1].cancel = 0
-                        strip(a[1])
+                        strip(a[1], above or n.complete)
                     out.append(a)
                 n.specs[sl['idx']][i] = out
 
+    filler = dict(idx=len(slots), comp=ncomp, gen=False, names=NAMES + ['prepare_unregister'], prio=0)
     if mute:
         for r in roots:
             strip(r)
+        if F_NOH in mute:
+            slots.append(filler)
+            cchan.append('*')
 
     # ---------------------------------------------------------------- ghost helpers
     def closure(x):
@@ -567,6 +578,9 @@ def _run(ctx, mute):
     root = comps[0]
     for i, c in enumerate(comps[1:], 1):
         c.register(comps[ch.draw(i, 'parent')])
+    if len(cchan) > ncomp:        # attribution re-run only: the component with the filler handler
+        f = make_slot(filler)
+        type('Filler', (Traced,), {f.__name__: f, 'channel': '*'})().register(root)
     Obs().register(root)
     leaves = []
     for r in roots:
